@@ -150,7 +150,7 @@ class Hist:
 
     # gates
     def tcp(self, conn, line, desc, exp, cred, **meta):
-        if os.environ.get("VERIF_C13_HOOK") == "1":
+        if os.environ.get("VERIF_C13_HOOK", "1") == "1":
             # the same line through the hooked check_auth (exact result); its AUTH token lives in slot gate:<conn>
             self.add(f"authg_line {conn} {desc} {hx(exp)} {hx(line.replace('@{auth:', '@{gate:'))}", op="gate", desc=desc, cred=cred,
                      show=f"check_auth[{conn}]< {line}", **meta)
